@@ -12,5 +12,7 @@ def check(ctx, rep):
     diffr.diff_2(ctx, rep)   # the pending line end is decided on the node that really is the last one copied
     from ..rules import shape as _shape
     _shape.wrap_1(ctx, rep)      # decorated -> async_funcdef -> funcdef: unwrap chains are closed under the grammar
+    from ..rules import gr as _gr9
+    _gr9.gr_9(ctx, rep)          # the diff cache is keyed by the grammar hash: versions that share a grammar text must tokenize alike
     rep.note('Not decided: equivalence of the incremental and the fresh tree over edit histories (difflib opcodes, '
              'line arithmetic, copy heuristics are value driven).')
